@@ -29,3 +29,12 @@ Lemma stream_onclose_shape_known :
   StreamOnCloseFound = true /\ StreamOnCloseAssignsNilReader = StreamCloseNilsReader /\
   StreamOnCloseAssignsNilWriter = StreamCloseNilsWriter /\ StreamCloseNilsReader = StreamCloseNilsWriter.
 Proof. vm_compute. auto. Qed.
+
+(* Tunnel.Start has the statements the lifecycle model transcribes (one SetCtx, one Connecting->Connected CAS, at least
+   one go statement); their ORDER is the regenerated flag TunnelStartSetCtxBeforeCas, which selects the model variant *)
+Lemma tunnel_start_shape_known : TunnelStartShapeFound = true /\ 1 <= TunnelStartSpawns.
+Proof. vm_compute. split; [reflexivity|]. repeat constructor. Qed.
+
+(* dynamicSourceWriter.Write was found and classified (lock released before / held across the forwarder Write) *)
+Lemma source_writer_shape_known : SourceWriterShapeFound = true.
+Proof. reflexivity. Qed.
